@@ -25,5 +25,32 @@ structure Prims where
   rsaVerify : Bool → String → Bs → Bs → Bs → Bs → Bool := fun _ _ _ _ _ _ => false
   /-- `EVP_DigestSignFinal` for RSA: pss?, hash name, n, d, message, salt -/
   rsaSign : Bool → String → Bs → Bs → Bs → Bs → Option Bs := fun _ _ _ _ _ _ => none
+  /-- `EC_KEY_generate_key` on a named curve from randomness: (d, x, y), each of the curve's width -/
+  ecGen : String → Bs → Option (Bs × Bs × Bs) := fun _ _ => none
+  /-- `RSA_generate_key_ex`: bits, public exponent (as a number), randomness → members by name -/
+  rsaGen : Nat → Nat → Bs → Option (List (String × Bs)) := fun _ _ _ => none
+  /-- ECDH: curve, private d, peer x, y → shared point (x, y) of the curve's width -/
+  ecdh : String → Bs → Bs → Bs → Option (Bs × Bs) := fun _ _ _ _ => none
+  /-- point addition / subtraction for ECMR: curve, (x1,y1), (x2,y2), negate second? -/
+  ecAdd : String → Bs → Bs → Bs → Bs → Bool → Option (Bs × Bs) := fun _ _ _ _ _ _ => none
+  /-- AES-GCM: key, iv, aad, plaintext → (ciphertext, tag) -/
+  gcmEnc : Bs → Bs → Bs → Bs → Bs × Bs := fun _ _ _ _ => ([], [])
+  /-- AES-GCM open: key, iv, aad, ciphertext, tag -/
+  gcmDec : Bs → Bs → Bs → Bs → Bs → Option Bs := fun _ _ _ _ _ => none
+  /-- AES-CBC with PKCS#7 padding -/
+  cbcEnc : Bs → Bs → Bs → Bs := fun _ _ _ => []
+  cbcDec : Bs → Bs → Bs → Option Bs := fun _ _ _ => none
+  /-- RFC 3394 key wrap / unwrap -/
+  kwWrap : Bs → Bs → Option Bs := fun _ _ => none
+  kwUnwrap : Bs → Bs → Option Bs := fun _ _ => none
+  /-- RSAES: oaep hash (`none` = PKCS#1 v1.5), n, e, message, randomness -/
+  rsaEnc : Option String → Bs → Bs → Bs → Bs → Option Bs := fun _ _ _ _ _ => none
+  /-- RSAES decryption: oaep hash, n, d, ciphertext -/
+  rsaDec : Option String → Bs → Bs → Bs → Option Bs := fun _ _ _ _ => none
+  /-- PBKDF2-HMAC: hash name, password, salt, iterations, length; `none` when OpenSSL refuses (iterations < 1) -/
+  pbkdf2 : String → Bs → Bs → Int → Nat → Option Bs := fun _ _ _ _ _ => none
+  /-- raw DEFLATE as jose drives zlib: compress everything; decompress (`none` = data error) -/
+  deflate : Bs → Bs := fun x => x
+  inflate : Bs → Option Bs := fun x => some x
 
 end Jose
